@@ -67,7 +67,7 @@ func New(minValue, maxValue int64, sigfigs int) *Histogram {
 	// overflow:
 	smallestUntrackableValue := int64(subBucketCount) << uint(unitMagnitude)
 	bucketsNeeded := int32(1)
-	for smallestUntrackableValue < maxValue {
+	for smallestUntrackableValue <= maxValue {
 		smallestUntrackableValue <<= 1
 		bucketsNeeded++
 	}
